@@ -242,8 +242,8 @@ V(id='c33-intcache-poisoned', prop='C33', file='mpmath/libmp/libmpf.py',
   new="    v = from_man_exp(n, 0, prec, rnd)\n    if -65536 < n < 65536:\n        int_cache[n] = v\n    return v\n\ndef to_man_exp",
   expect='fire:D-R1d:from_int')
 V(id='c33-constmemo-tag-first', prop='C33', file='mpmath/libmp/libelefun.py',
-  old="        f.memo_val = f(newprec, **kwargs)\n        f.memo_prec = newprec\n",
-  new="        f.memo_prec = newprec\n        f.memo_val = f(newprec, **kwargs)\n",
+  old="        val = f(newprec, **kwargs)\n        # invalidate, store, validate: an interrupt between the stores\n        # must not leave a value under the wrong precision\n        f.memo_prec = -1\n        f.memo_val = val\n        f.memo_prec = newprec\n        return val >> (newprec-prec)\n",
+  new="        f.memo_prec = newprec\n        f.memo_val = f(newprec, **kwargs)\n        return f.memo_val >> (newprec-prec)\n",
   expect='fire:D-R2:constant_memo.g')
 V(id='c33-constmemo-gate-reversed', prop='C33', file='mpmath/libmp/libelefun.py',
   old="        if prec <= memo_prec:", new="        if prec >= memo_prec:",
@@ -680,8 +680,8 @@ V(id='c17-double-fast-path', prop='C17', file='mpmath/libmp/libelefun.py',
   new="    def f(prec, rnd=round_fast):\n        if prec == 53 and rnd == round_nearest and fixed is pi_fixed:\n            return from_float(math.pi)\n        wp = prec + 20\n        while 1:",
   expect='fire:K-R1:def_mpf_constant.f')
 V(id='c17-memo-tag-first', prop='C17', file='mpmath/libmp/libelefun.py',
-  old="        f.memo_val = f(newprec, **kwargs)\n        f.memo_prec = newprec",
-  new="        f.memo_prec = newprec\n        f.memo_val = f(newprec, **kwargs)",
+  old="        val = f(newprec, **kwargs)\n        # invalidate, store, validate: an interrupt between the stores\n        # must not leave a value under the wrong precision\n        f.memo_prec = -1\n        f.memo_val = val\n        f.memo_prec = newprec\n        return val >> (newprec-prec)\n",
+  new="        f.memo_prec = newprec\n        f.memo_val = f(newprec, **kwargs)\n        return f.memo_val >> (newprec-prec)\n",
   expect='fire:D-R2:constant_memo')
 V(id='c17-memo-gate-lt-flipped', prop='C17', file='mpmath/libmp/libelefun.py',
   old="        if prec <= memo_prec:\n            return f.memo_val >> (memo_prec-prec)",
@@ -763,15 +763,15 @@ V(id='c34-workprec-reassigned', prop='C34', file='mpmath/calculus/odes.py',
   new="    def interpolant(x):\n        nonlocal workprec\n        x = ctx.convert(x)\n        orig = ctx.prec\n        workprec = max(workprec, orig + 40)",
   expect='fire:O-R1')
 V(id='c34-extension-tolerance-live', prop='C34', file='mpmath/calculus/odes.py',
-  old="            ser, xb = ode_taylor(ctx, F, xb, y, tol_prec, degree)\n            series_boundaries.append(xb)",
-  new="            ser, xb = ode_taylor(ctx, F, xb, y, ctx.prec+10, degree)\n            series_boundaries.append(xb)",
+  old="            ser, xb = ode_taylor(ctx, F, xb, y, tol_prec, degree)\n",
+  new="            ser, xb = ode_taylor(ctx, F, xb, y, ctx.prec+10, degree)\n",
   expect='fire:O-R1:get_series')
 V(id='c34-cache-trimmed', prop='C34', file='mpmath/calculus/odes.py',
   old="            series_data.append((ser, xa, xb))\n",
   new="            series_data.append((ser, xa, xb))\n            if len(series_data) > 64:\n                series_data.pop(0)\n                series_boundaries.pop(0)\n",
   expect='fire:O-R2:get_series')
 V(id='c34-boundary-not-recorded', prop='C34', file='mpmath/calculus/odes.py',
-  old="            series_boundaries.append(xb)\n            series_data.append((ser, xa, xb))",
+  old="            series_data.append((ser, xa, xb))\n            series_boundaries.append(xb)",
   new="            series_data.append((ser, xa, xb))\n            if x > xb:\n                series_boundaries.append(xb)",
   expect='fire:O-R2:get_series')
 V(id='c34-bisect-left', prop='C34', file='mpmath/calculus/odes.py',
@@ -1810,3 +1810,30 @@ V(id='c38-clone-mp-link-to-original', prop='C38', file='mpmath/ctx_mp.py',
   expect='fire:X-R3:clone')
 V(id='c38-fp-link-missing-in-init', prop='C38', file='mpmath/__init__.py',
   old="mp._fp = fp\n", new="", expect='fire:X-R8:<module>')
+
+# ---- C33/C17/C34 torn updates (fixes 0c5e39e, e19962f, 3a23740, 0c44217, cb5ff84) ----
+V(id='c33-memo-value-then-tag', prop='C33', file='mpmath/libmp/libelefun.py',
+  old="        f.memo_prec = -1\n        f.memo_val = val\n        f.memo_prec = newprec", new="        f.memo_val = val\n        f.memo_prec = newprec",
+  expect='fire:D-R2:constant_memo.g')
+V(id='c17-memo-value-then-tag', prop='C17', file='mpmath/libmp/libelefun.py',
+  old="        f.memo_prec = -1\n        f.memo_val = val\n        f.memo_prec = newprec", new="        f.memo_val = val\n        f.memo_prec = newprec",
+  expect='fire:D-R2:constant_memo.g')
+V(id='c33-memo-tag-then-value', prop='C33', file='mpmath/libmp/libelefun.py',
+  old="        f.memo_prec = -1\n        f.memo_val = val\n        f.memo_prec = newprec", new="        f.memo_prec = newprec\n        f.memo_val = val",
+  expect='fire:D-R2:constant_memo.g')
+V(id='c33-lu-value-then-tag', prop='C33', file='mpmath/matrices/linalg.py',
+  old="            orig._LU_prec = 0\n            orig._LU = (A, p)", new="            orig._LU = (A, p)",
+  expect='fire:D-LU:LU_decomp')
+V(id='c33-eulernum-partial-store', prop='C33', file='mpmath/libmp/libintmath.py',
+  old="            suma += a[k+1]\n        if n <= MAX:\n            _cache[n] = ((-1)**(n//2))*(suma // 2**n)",
+  new="            suma += a[k+1]\n            if n <= MAX:\n                _cache[n] = ((-1)**(n//2))*(suma // 2**n)",
+  expect='fire:D-R7:eulernum')
+V(id='c33-primesieve-gate-first', prop='C33', file='mpmath/libmp/gammazeta.py',
+  old="    primes_cache = primes\n    mult_cache = mult\n    sieve_cache = sieve", new="    sieve_cache = sieve\n    primes_cache = primes\n    mult_cache = mult",
+  expect='fire:D-R8:primesieve')
+V(id='c34-boundary-before-segment', prop='C34', file='mpmath/calculus/odes.py',
+  old="            series_data.append((ser, xa, xb))\n            series_boundaries.append(xb)", new="            series_boundaries.append(xb)\n            series_data.append((ser, xa, xb))",
+  expect='fire:O-R2:get_series')
+V(id='c34-no-repair', prop='C34', file='mpmath/calculus/odes.py',
+  old="        if len(series_boundaries) <= len(series_data):\n            # an interrupted extension stored a segment without its boundary\n            series_boundaries.append(series_data[len(series_boundaries)-1][2])\n",
+  new="", expect='fire:O-R2:get_series')
